@@ -7,6 +7,7 @@ SPEC = {
     "corr_name": "Sql.Model (run, run_batched) vs sqlgen.DB methods on a fake database/sql driver",
     "coq_modules": ["Sql.Model", "Sql.ModelCheck"],
     "harness_timeout": {"quick": 600, "thorough": 3000},
+    "search": {"n": 6000, "timeout": 600},
     "trusted_base": [
         "Coq 8.16.1 kernel and vm_compute (no native_compute); Print Assumptions: closed under the global context",
         "hand-written model coq/theories/Sql/Model.v of sqlgen/db.go, reflect.go, mysql.go, batch.go, tied to the code by the correspondence check only",
